@@ -895,6 +895,9 @@ void SLUFactor<R>::assign(const SLUFactor<R>& old)
 
    this->diag = old.diag;
 
+   // the temporary vectors are not copied, but they need the dimension of the copied factorization
+   vec.reDim(this->thedim);
+   ssvec.reDim(this->thedim);
    this->work = vec.get_ptr();
 
    /* setup U
